@@ -7,7 +7,33 @@ use crate::work::*;
 pub fn run_and_judge(cfg: &RunCfg, run_no: u32) -> (RunRecord, Vec<Finding>, Facts) {
     let rec = execute(cfg, run_no);
     let (mut findings, facts) = evaluate(cfg, &rec);
-    if cfg.prop == "C13" {
+    if cfg.prop == "C13" && !cfg.sim.call_granular {
+        // fine-grained run of an adaptor kind: every general oracle applies. A finding that the
+        // underlying iterator does not show under the same configuration is the adaptor's.
+        if let Some(under) = cfg.kind.underlying() {
+            let own: Vec<Finding> = findings
+                .iter()
+                .filter(|f| f.prop != "C13" && f.prop != "C15")
+                .cloned()
+                .collect();
+            if let Some(first) = own.first() {
+                let mut twin = cfg.clone();
+                twin.kind = under;
+                let rec2 = execute(&twin, run_no.wrapping_add(7));
+                let (f2, _) = evaluate(&twin, &rec2);
+                if !f2.iter().any(|f| f.class == first.class) {
+                    findings.push(Finding {
+                        prop: "C13".into(),
+                        class: format!("adaptor-only:{}", first.class),
+                        msg: format!(
+                            "the {:?} adaptor misbehaves where the underlying {:?} iterator does not (same workload, fine-grained schedule): [{}] {}",
+                            cfg.kind, under, first.prop, first.msg
+                        ),
+                    });
+                }
+            }
+        }
+    } else if cfg.prop == "C13" {
         if let Some(under) = cfg.kind.underlying() {
             let mut twin = cfg.clone();
             twin.kind = under;
